@@ -92,6 +92,34 @@ CLAIMS["C18"] = dict(
     technique="algebraic GVN of timestep kernels + sign analysis + abstract interpretation of the driver",
     ref="DESIGN.md section 4 C18")
 
+CLAIMS["C01"] = dict(
+    text=("Clause set, exact arithmetic, all data: access-relation decoding shows res_i[c] = -(F_i[c+1]-F_i[c])/vol[c] with "
+          "vol = widths of the FINAL face array of every mesh class (so the volume-weighted sum telescopes), the periodic "
+          "closure feeds identical (L,R) pairs to both end faces, every flux kernel is element-wise and called once, mass / "
+          "energy / depth fluxes through 'sym' walls vanish identically for every flux (GVN of bc_sym composed with the flux), "
+          "every integrator updates all equations with one linear combination of residuals (AFF), implicit system form and "
+          "Jacobian column/layout rules (incl. banded stores that drop periodic couplings). 2D telescoping when the 2D decoder "
+          "is present. Not decided: size of round-off."),
+    technique="access-relation (stencil) analysis + algebraic GVN + affine abstract interpretation of integrators + AST who-may-write queries",
+    ref="DESIGN.md section 4 C01")
+CLAIMS["C14"] = dict(
+    text=("Clause set: for every 1D reconstruction class the decoded gradient, left and right state at each face next to the "
+          "periodic seam (after calc_bc_grad / calc_bc) equal, as ring identities, the interior template with indices wrapped "
+          "modulo n and the centre distance shifted by the domain length; the residual rule is a single relation for all "
+          "cells; parametric in n. Together with POINTWISE (C01) this is translation invariance of the 1D operator. "
+          "2D closures when the 2D decoder is present. Not decided: one round-off difference in the wrap distance."),
+    technique="access-relation (stencil) analysis + algebraic GVN (seam relation == wrapped interior template)",
+    ref="DESIGN.md section 4 C14")
+CLAIMS["C20"] = dict(
+    text=("Clause set: constructor chains of all 1D mesh classes abstractly interpreted with symbolic sizes (every store to xf "
+          "a new version): ncell+1 faces, span [x0, x0+length] (image under the morphing), zones join, centres and widths "
+          "w.r.t. the final face array (no stale cached geometry), positive spacing, refined ratio under the whole-cell "
+          "hypothesis, rounding-safe int conversion, volume-weighted averages; 2D: nx*ny cells, face count, the four index "
+          "tables equal the boundary face lines of the layout with correct sizes, orientation, outward unit normals, dx*dy "
+          "volumes. Not decided: rounding inside linspace; monotonicity of a user morphing."),
+    technique="abstract interpretation of mesh constructors (symbolic sizes, versioned face arrays) + algebraic GVN of index tables",
+    ref="DESIGN.md section 4 C20")
+
 NA_REASONS = {
     "C09": ("runtime invariant of trajectories (range and total variation after every step for all data); its "
             "code-shape premises are owned and decided by C02, C05, C11, C12, C18; the remaining step (flux "
